@@ -808,3 +808,82 @@ Proof.
     destruct o; try discriminate U; try (cbn [book_only] in M4; rewrite (M4 eq_refl); destruct (d =? asset); lia).
     destruct (d =? asset); lia.
 Qed.
+
+(* ---- what a withdrawal / close pays, spelled out ---- *)
+Lemma step_pay_withdraw s u app asset lid amt rw s' :
+  LInv s -> 0 <= u -> step s (LWithdraw u app asset lid amt rw) = Ok s' ->
+  bnk (cs s') (user u, asset) = bnk (cs s) (user u, asset) + amt.
+Proof.
+  intros HI Hu H. assert (Hv : valid_op (LWithdraw u app asset lid amt rw) = true) by (cbn; lia).
+  pose proof (step_pay _ _ _ HI Hv H) as P. unfold holds_C13_pay in P. cbn [pay_spec] in P. lia.
+Qed.
+
+Lemma step_pay_close s u app asset lid rw s' :
+  LInv s -> 0 <= u -> step s (LClose u app asset lid rw) = Ok s' ->
+  exists ld, find_locker (lockers s) lid = Some ld /\ find_locker (lockers s') lid = None /\
+             bnk (cs s') (user u, asset) = bnk (cs s) (user u, asset) + l_net ld + credited s app asset lid rw.
+Proof.
+  intros HI Hu H. assert (Hv : valid_op (LClose u app asset lid rw) = true) by (cbn; lia).
+  pose proof (step_pay _ _ _ HI Hv H) as P. unfold holds_C13_pay in P. cbn [pay_spec] in P.
+  cbn [step] in H. unfold msg_close in H. destruct (lid <=? 0); [discriminate|].
+  destruct (locker_checks s u app asset lid) as [ld0| |] eqn:C; cbn [obind] in H; try discriminate.
+  destruct (locker_checks_spec _ _ _ _ _ _ C) as (F & Hd & Ho & Ha & Hk). rewrite F in P. exists ld0. split; [exact F|]. split; [|lia].
+  destruct (calc_rewards s app asset lid rw) as [s1| |] eqn:R; cbn [obind] in H; try discriminate.
+  destruct (calc_rewards_locker _ _ _ _ _ _ _ R F) as (ld1 & F1 & Hid1 & _).
+  assert (HI1 : LInv s1).
+  { eapply calc_rewards_linv; eauto. intros ld Hf. rewrite F in Hf. injection Hf as <-. auto. }
+  unfold reread in H. rewrite F1 in H. apply obind_ok in H. destruct H as (s2 & H1 & H2). injection H2 as <-.
+  assert (L2 : lockers s2 = lockers s1).
+  { destruct (l_net ld1 >? 0); [apply lift_ok in H1; destruct H1 as (c & _ & ->); reflexivity|injection H1 as <-; reflexivity]. }
+  cbn [lockers set_trk set_lockers].
+  match goal with |- find_locker (del_locker (lockers ?X) _) _ = None => assert (Hl : lockers X = lockers s1) end.
+  { destruct (lks (upd_amount s2 app asset (l_net ld1) false) (app, asset)) as [lk'|];
+      [match goal with |- context [if ?b then _ else _] => destruct b end|]; cbn [lockers set_lks set_umap];
+      unfold upd_amount; destruct (lks s2 (app, asset)); cbn [lockers set_lks]; exact L2. }
+  rewrite Hl, (find_del _ _ _ (li_nodup s1 HI1)), Hid1, Z.eqb_refl. reflexivity.
+Qed.
+
+(* ------------------------------------------------------------------------------------ *)
+(* a concrete world: assets 1..3, apps 1..2, two funded users; used by the non-vacuity
+   examples and the refutation witnesses                                                  *)
+Definition ex_assets (a : Z) : bool := (1 <=? a) && (a <=? 3).
+Definition ex_apps (a : Z) : bool := (1 <=? a) && (a <=? 2).
+Definition ex_genesis : state := genesis ex_assets ex_apps [(0, 2, 5000000); (1, 2, 7000000); (1, 3, 900)].
+
+(* lookup + whitelists for (app 1, asset 2) with a savings rate, two lockers, a fee paid in, a
+   reward paid (tracker input 3.5 -> 3 credited), a withdrawal, a close, a generation-1 surplus
+   auction started and closed without bidder, a debt cover *)
+Definition ex_ops : list op :=
+  [ AddLookup 1 2 3 100000000000000000 1000 500 500 500; WlLocker 1 2; WlReward 1 2; SetFlags 1 2 true false false;
+    LCreate 0 1 2 1000000; LCreate 1 1 2 2500000; LDeposit 0 1 2 1 500 0;
+    FeeIn 1 2 40000 false; LRewardCalc 1 1 3500000000000000000;
+    LWithdraw 1 1 2 2 300000 2000000000000000000; V1SurplusStart 1 2; V1SurplusClose 1 2 500 false false;
+    GetAmount 1 2 100; LClose 0 1 2 1 0; UpdLookup 1 2 50000000000000000 1000 500 500 500 [4200000000000000000] ].
+
+(* the witnesses of the three known-finding classes *)
+Definition ex_kf1_ops : list op := [ V2Penalty 1 2 3 120000 ].
+Definition ex_kf2_ops : list op :=
+  [ AddLookup 1 2 3 0 1000 500 500 500; SetFlags 1 2 true false false; FeeIn 1 2 2000 false; V2CheckStats 1 2; V2SurplusClose 1 2 500 ].
+Definition ex_kf3_ops : list op := [ SetFlags 1 2 false true false; V2DebtClose 1 2 700 2 500 ].
+
+Definition last_kf (kf : op -> bool) (ops : list op) : bool :=
+  match rev ops with o :: r => kf o && forallb kf_free r | [] => false end.
+
+Lemma kf1_refuted :
+  forallb valid_op ex_kf1_ops = true /\ last_kf kf_C13_1 ex_kf1_ops = true /\
+  holds_C13_backed [1; 2] [1; 2; 3] (run ex_genesis ex_kf1_ops) = false /\
+  holds_C13_flow [1; 2] [1; 2; 3] ex_genesis (V2Penalty 1 2 3 120000) (run ex_genesis ex_kf1_ops) = false.
+Proof. vm_compute. repeat split. Qed.
+
+Lemma kf2_refuted :
+  forallb valid_op ex_kf2_ops = true /\ last_kf kf_C13_2 ex_kf2_ops = true /\
+  holds_C13_backed [1; 2] [1; 2; 3] (run ex_genesis (removelast ex_kf2_ops)) = true /\
+  holds_C13_backed [1; 2] [1; 2; 3] (run ex_genesis ex_kf2_ops) = false /\
+  holds_C13_flow [1; 2] [1; 2; 3] (run ex_genesis (removelast ex_kf2_ops)) (V2SurplusClose 1 2 500) (run ex_genesis ex_kf2_ops) = false.
+Proof. vm_compute. repeat split. Qed.
+
+Lemma kf3_refuted :
+  forallb valid_op ex_kf3_ops = true /\ last_kf kf_C13_3 ex_kf3_ops = true /\
+  holds_C13_backed [1; 2] [1; 2; 3] (run ex_genesis ex_kf3_ops) = false /\
+  holds_C13_flow [1; 2] [1; 2; 3] (run ex_genesis (removelast ex_kf3_ops)) (V2DebtClose 1 2 700 2 500) (run ex_genesis ex_kf3_ops) = false.
+Proof. vm_compute. repeat split. Qed.
